@@ -35,7 +35,7 @@ ASSUMPTIONS = [
     "reference stream interpreter B3 in this file (DESIGN.md Appendix B3) decides accept / reject / not-done and the resulting content",
     "TTLs are a function of (owner, type) so RRset TTLs do not change between versions",
 ]
-REQUIRED = ["mon.via_socket_loop", "mon.valid_transfer_converges", "mon.faulted_transfer", "mon.error_leaves_zone_untouched", "mon.must_reject_classes", "mon.notdone_leaves_zone_untouched"]
+REQUIRED = ["mon.via_socket_loop", "mon.via_socket_loop_udp", "mon.via_socket_loop_async", "mon.valid_transfer_converges", "mon.faulted_transfer", "mon.error_leaves_zone_untouched", "mon.must_reject_classes", "mon.notdone_leaves_zone_untouched"]
 BUDGET = {"quick": 45.0, "thorough": 480.0}
 
 FACTORIES = [("plain", dns.zone.Zone), ("versioned", dns.versioned.Zone), ("btree", dns.btreezone.Zone)]
@@ -472,7 +472,8 @@ def run_via_query(ctx, rng, zname, factory, relativize, z0, s0, kind, msgs, sign
 
     clock = _FrozenClock()
     with swap_attr(dns.message, "time", clock), swap_attr(dns.renderer, "time", clock):
-        return _run_via_query(ctx, rng, zname, relativize, z, before, ref, key, q, kind, msgs, sign, last_unsigned, case)
+        return _run_via_query(ctx, rng, zname, relativize, z, before, ref, key, q, kind, msgs, sign, last_unsigned, case,
+                              fresh_zone=lambda: build_zone(factory, relativize, z0, s0))
 
 
 class _FrozenClock:
@@ -482,7 +483,86 @@ class _FrozenClock:
         return 1_800_000_000.0
 
 
-def _run_via_query(ctx, rng, zname, relativize, z, before, ref, key, q, kind, msgs, sign, last_unsigned, case):
+def async_twin(ctx, rng, fresh_zone, q, dgrams, stream, mode, sync_outcome, case):
+    """the same scripted peer through dns.asyncquery.inbound_xfr and a stand-in backend: same verdict, same resulting zone"""
+    import asyncio
+    import socket
+
+    import dns.asyncquery
+
+    z2 = fresh_zone()
+    opened = []
+
+    class ASock:
+        def __init__(self, kind):
+            self.type = kind
+            self.q = list(dgrams)
+            self.data, self.pos = stream, 0
+
+        async def __aenter__(self):
+            return self
+
+        async def __aexit__(self, *a):
+            return False
+
+        async def sendto(self, what, destination, timeout):
+            return len(what)
+
+        async def sendall(self, what, timeout):
+            return None
+
+        async def recvfrom(self, size, timeout):
+            if not self.q:
+                raise dns.exception.Timeout
+            return self.q.pop(0), ("192.0.2.1", 53)
+
+        async def recv(self, size, timeout):
+            if self.type == socket.SOCK_DGRAM:
+                if not self.q:
+                    raise dns.exception.Timeout
+                return self.q.pop(0)[:size]
+            if self.pos >= len(self.data):
+                return b""
+            k = max(1, min(size, rng.choice((1, 2, 7, 100, size))))
+            out = self.data[self.pos:self.pos + k]
+            self.pos += len(out)
+            return out
+
+    class Backend:
+        def name(self):
+            return "scripted"
+
+        async def make_socket(self, af, socktype, *a, **k):
+            sk = ASock(socktype)
+            opened.append(sk)
+            return sk
+
+    async def go():
+        await dns.asyncquery.inbound_xfr("192.0.2.1", z2, query=q, timeout=5, lifetime=30, udp_mode=mode, backend=Backend())
+
+    err = None
+    loop = asyncio.new_event_loop()
+    try:
+        with core.case_guard(20):
+            loop.run_until_complete(go())
+    except core.CaseTimeout:
+        ctx.violation("transfer-loop-did-not-finish:async", "", case)
+        return
+    except (dns.exception.DNSException, EOFError, KeyError, ValueError) as e:
+        err = e
+    except Exception as e:
+        ctx.violation("async-inbound_xfr-raised-foreign:" + core.exc_sig(e), repr(e), case)
+        return
+    finally:
+        loop.close()
+    ctx.count("mon.via_socket_loop_async")
+    outcome = (type(err).__name__ if err else "ok", zone_fp(z2)[0], len(opened))
+    if outcome != sync_outcome:
+        what = "verdict" if outcome[0] != sync_outcome[0] else "zone" if outcome[1] != sync_outcome[1] else "sockets-opened"
+        ctx.violation(f"async-transfer-differs-from-sync:{what}", f"sync {sync_outcome[0]}/{sync_outcome[2]} sockets, async {outcome[0]}/{outcome[2]} sockets", case)
+
+
+def _run_via_query(ctx, rng, zname, relativize, z, before, ref, key, q, kind, msgs, sign, last_unsigned, case, fresh_zone=None):
     import struct
 
     import dns.query
@@ -513,7 +593,11 @@ def _run_via_query(ctx, rng, zname, relativize, z, before, ref, key, q, kind, ms
     try:
         with swap_attr(dns.query, "make_socket", lambda *a, **k: fake), swap_attr(dns.query, "_connect", lambda *a, **k: None), \
                 swap_attr(dns.query, "_wait_for", lambda *a, **k: None):
-            dns.query.inbound_xfr("192.0.2.1", z, query=q, timeout=5, lifetime=30)
+            with core.case_guard(20):
+                dns.query.inbound_xfr("192.0.2.1", z, query=q, timeout=5, lifetime=30)
+    except core.CaseTimeout:
+        ctx.violation("transfer-loop-did-not-finish:tcp", "", case)
+        return
     except (dns.exception.DNSException, EOFError, KeyError, ValueError) as e:
         err = e
     except Exception as e:
@@ -522,6 +606,8 @@ def _run_via_query(ctx, rng, zname, relativize, z, before, ref, key, q, kind, ms
     after = zone_fp(z)
     tag = f"{zname}:{'rel' if relativize else 'abs'}:{'tsig' if sign else 'plain'}"
     ctx.count("mon.via_socket_loop")
+    if fresh_zone is not None:
+        async_twin(ctx, rng, fresh_zone, q, [], bytes(stream), dns.query.UDPMode.NEVER, (type(err).__name__ if err else "ok", after[0], 1), dict(case, twin="async"))
     ctx.seen(("via-query", kind, zname, sign, last_unsigned, type(err).__name__ if err else "ok", ref[0]))
     if bytes(fake.written) != struct.pack("!H", len(qw)) + qw and not sign:
         ctx.violation("inbound_xfr-request-not-framed-as-rendered", "", case)
@@ -541,6 +627,105 @@ def _run_via_query(ctx, rng, zname, relativize, z, before, ref, key, q, kind, ms
             ctx.violation("transfer-result-differs-from-server-zone:via-socket-loop", f"{tag}: {diffc(after[0], want)}", case)
     elif after[0] != before[0]:
         ctx.violation(f"malformed-stream-accepted:via-socket-loop:{ref[1] if len(ref) > 1 else ref[0]}", tag, case)
+
+
+def run_via_query_udp(ctx, rng, zname, factory, relativize, z0, s0, msgs, tcp_recs, mode, case):
+    """dns.query.inbound_xfr with udp_mode TRY_FIRST / ONLY: a scripted datagram socket (a real socket.socket subclass, so the
+    library's own is-this-UDP test sees it), then, if the library falls back, a scripted stream carrying tcp_recs"""
+    import socket
+    import struct
+
+    import dns.query
+    from vlib.mon.hooks import swap_attr
+
+    z = build_zone(factory, relativize, z0, s0)
+    before = zone_fp(z)
+    ref_udp = interpret(z0, s0, "ixfr", True, msgs)
+    use_tcp = ref_udp[0] == "reject" and ref_udp[1] == "use tcp"
+    tcp_msgs = mk_msgs(rng, tcp_recs, rng.choice(("one", "random")), "first", "ixfr") if tcp_recs else []
+    ref_tcp = interpret(z0, s0, "ixfr", False, tcp_msgs) if tcp_msgs else None
+    q, serial = dns.xfr.make_query(z, serial=s0)
+    opened = []
+
+    class Dgram(socket.socket):
+        def __init__(self, datagrams):
+            super().__init__(socket.AF_INET, socket.SOCK_DGRAM)
+            self.q, self.sent = list(datagrams), []
+
+        def recvfrom(self, n):
+            if not self.q:
+                raise dns.exception.Timeout  # nothing more will come: what the expiration would report
+            return self.q.pop(0), ("192.0.2.1", 53)
+
+        def send(self, data):
+            self.sent.append(bytes(data))
+            return len(data)
+
+        def recv(self, n):  # a datagram socket read as if it were a stream still gets (a prefix of) the next datagram
+            if not self.q:
+                raise dns.exception.Timeout
+            return self.q.pop(0)[:n]
+
+    def fake_make_socket(af, kind, source=None, *a, **k):
+        if kind == socket.SOCK_DGRAM:
+            sk = Dgram([render(m, "IXFR", q.id) for m in msgs])
+        else:
+            data = b"".join(struct.pack("!H", len(w)) + w for w in (render(m, "IXFR", q.id) for m in tcp_msgs))
+            sk = _Stream(data, rng)
+        opened.append(sk)
+        return sk
+
+    err = None
+    try:
+        with swap_attr(dns.query, "make_socket", fake_make_socket), swap_attr(dns.query, "_connect", lambda *a, **k: None), \
+                swap_attr(dns.query, "_wait_for", lambda *a, **k: None):
+            with core.case_guard(20):
+                dns.query.inbound_xfr("192.0.2.1", z, query=q, timeout=5, lifetime=30, udp_mode=mode)
+    except core.CaseTimeout:
+        ctx.violation("transfer-loop-did-not-finish:udp", f"sockets {[type(x).__name__ for x in opened]}", case)
+        return
+    except (dns.exception.DNSException, EOFError, KeyError, ValueError) as e:
+        err = e
+    except Exception as e:
+        ctx.violation("inbound_xfr-udp-raised-foreign:" + core.exc_sig(e), repr(e), case)
+        return
+    after = zone_fp(z)
+    tag = f"{zname}:{'rel' if relativize else 'abs'}:{mode.name}"
+    ctx.count("mon.via_socket_loop_udp")
+    kinds = [type(x).__name__ for x in opened]
+    async_twin(ctx, rng, lambda: build_zone(factory, relativize, z0, s0), q, [render(m, "IXFR", q.id) for m in msgs],
+               b"".join(struct.pack("!H", len(w)) + w for w in (render(m, "IXFR", q.id) for m in tcp_msgs)), mode,
+               (type(err).__name__ if err else "ok", after[0], len(opened)), dict(case, twin="async"))
+    ctx.seen(("via-query-udp", mode.name, zname, ref_udp[0], use_tcp, type(err).__name__ if err else "ok", tuple(kinds)))
+    if not kinds or kinds[0] != "Dgram":
+        ctx.violation("udp-mode-did-not-start-with-a-datagram-socket", f"{tag}: {kinds}", case)
+        return
+    # what must happen
+    if ref_udp[0] == "ok":
+        final, fell_back = ref_udp, False
+    elif use_tcp and mode == dns.query.UDPMode.TRY_FIRST:
+        final, fell_back = ref_tcp, True
+    else:
+        final, fell_back = ref_udp, False
+    if fell_back != (len(kinds) > 1):
+        ctx.violation("tcp-fallback-taken-or-skipped-wrongly", f"{tag}: sockets {kinds}, reference {'falls back' if fell_back else 'stays on UDP'}", case)
+        return
+    if err is not None:
+        if after[0] != before[0]:
+            ctx.violation("error-reported-for-applied-transfer:via-socket-loop-udp", f"{tag}: {err!r}; zone changed", case)
+        elif final[0] == "ok":
+            ctx.violation(f"valid-stream-rejected:via-socket-loop-udp:{type(err).__name__}", f"{tag}: {err!r}", case)
+        elif use_tcp and mode == dns.query.UDPMode.ONLY and not isinstance(err, dns.xfr.UseTCP):
+            ctx.violation(f"udp-only-mode-does-not-report-UseTCP:{type(err).__name__}", f"{tag}: {err!r}", case)
+        return
+    if final[0] == "ok":
+        want = before[0] if final[1] is None else content_of(final[1], final[2])
+        if after[0] != want:
+            ctx.violation("transfer-result-differs-from-server-zone:via-socket-loop-udp", f"{tag}: {diffc(after[0], want)}", case)
+    elif after[0] != before[0]:
+        ctx.violation("malformed-stream-accepted:via-socket-loop-udp", tag, case)
+    else:
+        ctx.violation("malformed-or-incomplete-udp-answer-not-reported", f"{tag}: reference {final}", case)
 
 
 def run(spec, ctx):
@@ -571,6 +756,18 @@ def run(spec, ctx):
                     rel2 = rng.random() < 0.5
                     run_via_query(ctx, rng, zn2, fac2, rel2, z0, s0, base_kind, msgs, sign, last_unsigned,
                                   dict(case, via="dns.query.inbound_xfr", tsig=sign, last_unsigned=last_unsigned, zone=zn2, relativize=rel2))
+                if is_udp:
+                    import dns.query
+
+                    zn2, fac2 = FACTORIES[rng.randrange(3)]
+                    rel2 = rng.random() < 0.5
+                    mode = rng.choice((dns.query.UDPMode.TRY_FIRST, dns.query.UDPMode.ONLY))
+                    k_last = len(versions) - 1
+                    tcp_recs = [soa(serials[k_last]), soa(s0)] + sorted(z0 - versions[k_last]) + [soa(serials[k_last])] + sorted(versions[k_last] - z0) + [soa(serials[k_last])]
+                    if s0 == serials[k_last]:
+                        tcp_recs = [soa(s0)]
+                    run_via_query_udp(ctx, rng, zn2, fac2, rel2, z0, s0, msgs, tcp_recs, mode,
+                                      dict(case, via="dns.query.inbound_xfr", udp_mode=mode.name, zone=zn2, relativize=rel2))
                 if it < 1 and kind == "ixfr-multistep" and how == "one":
                     ctx.sample({"stream": kind, "base": s0, "target": serials[-1], "records": [" ".join(map(str, r)) for r in recs]})
                 # single-fault enumeration on streams that are short enough
